@@ -330,14 +330,17 @@ def make_inputs(tmp):
     ajson.write(ss, f3)
     out.append(('unstable-fault', f3, ['tds'], {'tf': 4.0}, False))
     # the same with the fault as the ONLY event of the case (no line switching)
-    ss = andes.load(andes.get_case('kundur/kundur_full.xlsx'), setup=False, no_output=True, default_config=True)
+    # (a stock case whose only event is a fault; its clearing is delayed until the machines have lost synchronism, while
+    # the integration itself remains feasible)
+    ss = andes.load(andes.get_case('ieee14/ieee14_fault.xlsx'), setup=False, no_output=True, default_config=True)
     for i in range(ss.Toggle.n):
         ss.Toggle.u.v[i] = 0
-    ss.add('Fault', dict(bus=ss.Bus.idx.v[6], tf=0.1, tc=2.0, xf=1e-4))
+    for i in range(ss.Fault.n):
+        ss.Fault.tc.v[i] = 3.0
     ss.setup()
     f6 = os.path.join(tmp, 'unstable_fault_only.json')
     ajson.write(ss, f6)
-    out.append(('unstable-fault-only', f6, ['tds'], {'tf': 4.0}, False))
+    out.append(('unstable-fault-only', f6, ['tds'], {'tf': 4.5}, False))
     return out
 
 
